@@ -31,6 +31,9 @@ DEFAULT_CHECKS = ['--bounds-check', '--pointer-check', '--div-by-zero-check', '-
 # dereference is treated as "flat address space" (assumption listed in evidence).
 
 
+IGNORED_DESCRIPTIONS = ('pointer relation: pointer outside object bounds',)
+
+
 class ToolError(Exception):
     pass
 
@@ -232,9 +235,41 @@ def build_unit(u, tier, extra_defs=(), tag='', trace=False):
         res['time_s'] = time.time() - t0
         return res
     alltext = '\n'.join(t for _, t in msgs)
+    # cbmc leaves obligations UNKNOWN when they sit behind an obligation that failed in the same run (here: behind an
+    # ignored flat-address-space relation or behind a real failure).  Re-run exactly those obligations until none is left.
+    for _round in range(4):
+        if results is None:
+            break
+        unk = [r['property'] for r in results if r['status'] == 'UNKNOWN']
+        if not unk or trace:
+            break
+        cb2 = list(cb)
+        for pn in unk:
+            cb2 += ['--property', pn]
+        outj2 = os.path.join(bdir, 'cbmc.%d.json' % (_round + 2))
+        with open(outj2, 'wb') as fo:
+            rc2, err2, dt2 = run(cb2, timeout, out=fo)
+        res['solver_time_s'] = round(res['solver_time_s'] + dt2, 2)
+        if rc2 == -9:
+            break
+        try:
+            results2, msgs2 = parse_cbmc_json(outj2)
+        except ToolError:
+            break
+        if not results2:
+            break
+        upd = {r['property']: r for r in results2}
+        progressed = False
+        for i, r in enumerate(results):
+            if r['status'] == 'UNKNOWN' and r['property'] in upd and upd[r['property']]['status'] != 'UNKNOWN':
+                results[i] = upd[r['property']]
+                progressed = True
+        if not progressed:
+            break
     if results is None:
         res['status'] = 'tool-error'
-        res['detail'] = 'no result block; rc=%s; %s' % (rc, alltext[-1500:])
+        errs = ' | '.join(t for ty, t in msgs if ty == 'ERROR')
+        res['detail'] = 'no result block; rc=%s; %s' % (rc, errs[-1200:] or alltext[-800:])
         res['time_s'] = time.time() - t0
         return res
     if re.search(r'ignoring (forall|exists|quantifier)', alltext):
@@ -258,6 +293,11 @@ def build_unit(u, tier, extra_defs=(), tag='', trace=False):
         byc[cls] = byc.get(cls, 0) + 1
         if r['status'] == 'SUCCESS':
             d += 1
+        elif r['status'] == 'FAILURE' and any(desc.startswith(x) for x in IGNORED_DESCRIPTIONS):
+            # flat-address-space assumption (DESIGN 3.3): relational operators / arithmetic on a pointer that has left its
+            # object without being dereferenced.  Counted, reported in the evidence, not a verdict.
+            n -= 1
+            res['flat_address_space_uses'] = res.get('flat_address_space_uses', 0) + 1
         elif r['status'] == 'FAILURE':
             loc = r.get('sourceLocation', {})
             f = {'obligation': r['property'], 'description': desc, 'line': loc.get('line'), 'function': loc.get('function')}
@@ -582,7 +622,7 @@ def main():
                 'solver_time_s': r.get('solver_time_s'), 'canary': r.get('canary'), 'bound': (u.get('bound') if r.get('kind') != 'proof' else None),
                 'unwind': tier_val(u, 'unwind', tier), 'claims': u.get('claims'),
                 'extracted': [{'file': i['file'], 'line': i['line'], 'what': i['what'], 'sha256': i['sha256'], 'rewrite_rules_fired': i['rules']} for i in r.get('extracts', [])],
-                'harness_assumes': r.get('assumes'), 'checker_cmd': r.get('checker_cmd'), 'detail': r.get('detail'),
+                'harness_assumes': r.get('assumes'), 'flat_address_space_uses': r.get('flat_address_space_uses', 0), 'checker_cmd': r.get('checker_cmd'), 'detail': r.get('detail'),
             } for u, r in results],
             'proof_units': {'count': len(proof_units), 'obligations': po, 'discharged': pd},
             'bounded_units': {'count': len(bounded_units), 'obligations': bo, 'discharged': bd, 'note': 'bounded stand-ins (cbmc --unwind N --unwinding-assertions or finite universe); never counted as proved'},
